@@ -342,6 +342,11 @@ func (vr *variableResolver) resolve(ctx *ExecutionContext) (*Value, error) {
 						if err != nil {
 							return nil, err
 						}
+						if !sv.IsInteger() {
+							// only an integer is an index (Integer() would read any other
+							// key as 0 and silently hand out the first element): no such item
+							return AsValue(nil), nil
+						}
 						si := sv.Integer()
 						if si >= 0 && current.Len() > si {
 							current = current.Index(si)
